@@ -715,15 +715,31 @@ def block_reent(rng, nops):
     # a system whose KPHYS -> MACHPHYS stage looks frames up in that table
     f(meth_line(0, ("memarr", MACHPHYS, ras, base * 0x1000, 12, 8, 8)))
     f(map_line(M_KPHYS_MACHPHYS, [(FULL, 0)]))
+    via_sys = rng.random() < 0.25
+    if via_sys:
+        # the frame table is not directly readable: the callback's read goes through addrxlat_op (translation system) and
+        # only then through the cache; not modelled (monitors: the call returns, both nesting bounds hold)
+        f("reentsys 1")
+        dst = rng.choice([a for a in (0, 1, 2) if a != ras])
+        f("rcaps %d" % (1 << dst))
+        hop = {(2, 0): [M_KV_PHYS], (2, 1): [M_KV_PHYS, M_KPHYS_MACHPHYS], (0, 1): [M_KPHYS_MACHPHYS], (0, 2): [M_KPHYS_DIRECT],
+               (1, 0): [M_MACHPHYS_KPHYS], (1, 2): [M_MACHPHYS_KPHYS, M_KPHYS_DIRECT]}[(ras, dst)]
+        tgt = {M_KV_PHYS: KPHYS, M_KPHYS_MACHPHYS: MACHPHYS, M_KPHYS_DIRECT: KV, M_MACHPHYS_KPHYS: KPHYS}
+        for slot, mi in enumerate(hop, 3):
+            f(meth_line(slot, ("linear", tgt[mi], rng.choice([0, 0, 0x1000, W - 0x1000]))))
+            f(map_line(mi, [(FULL, slot)]))
+        ras_rd = dst
+    else:
+        ras_rd = ras
     f("newctx")
     pool = [p * 0x1000 + off() for p in tbl] + [a for a in tbl.values()] + [rng.choice(PAGES) + off() for _ in range(3)]
     warm = rng.choice([0, 0, 1, 2, 3, 4, 4, 5, 6])
     for pg in rng.sample(PAGES, warm):
-        f("rd %d %d" % (ras, pg + off()))
+        f("rd %d %d" % (ras_rd, pg + off()))
     for _ in range(nops):
         k = rng.random()
         if k < 0.7:
-            f("rd %d %d" % (ras if rng.random() < 0.9 else rng.choice((0, 1, 2)), rng.choice(pool)))
+            f("rd %d %d" % (ras_rd if rng.random() < 0.9 else rng.choice((0, 1, 2)), rng.choice(pool)))
         elif k < 0.78:
             f("newctx")
         else:
